@@ -287,6 +287,8 @@ def _callee_hint(txt):
 
 def run_unit(unit, repo='/repo', tier='quick', rlimit=30, seed=None, canaries=True):
     os.makedirs(WORK, exist_ok=True)
+    if os.environ.get('VERIF_NO_CANARY'):
+        canaries = False      # evaluation runs on changed trees (seedall / benignrun): vacuity is a matter of the unchanged tree
     res = UnitResult(unit)
     t0 = time.time()
     try:
